@@ -253,8 +253,18 @@ func VerifyRangeProof(root, first *felt.Felt, keys, values []*felt.Felt, proof *
 		return false, fmt.Errorf("inconsistent length of proof data, keys: %d, values: %d", len(keys), len(values))
 	}
 
+	// No key of the trie is 2^251 or more: a range bounded by or listing such a felt claims
+	// nothing about the trie (SetFelt would verify its low 251 bits instead)
+	if first != nil && first.Cmp(&maxKeyByHeight[globalTrieHeight]) > 0 {
+		return false, fmt.Errorf("first key %s exceeds the trie height %d", first.String(), globalTrieHeight)
+	}
+
 	// Ensure all keys are monotonically increasing and values contain no deletions
 	for i := range keys {
+		if keys[i] == nil || keys[i].Cmp(&maxKeyByHeight[globalTrieHeight]) > 0 {
+			return false, fmt.Errorf("key %d of the range is nil or exceeds the trie height %d", i, globalTrieHeight)
+		}
+
 		if i < len(keys)-1 && keys[i].Cmp(keys[i+1]) > 0 {
 			return false, errors.New("keys are not monotonic increasing")
 		}
